@@ -150,7 +150,7 @@ def run_config(ctx, rep, cfg, F):
                        sample={"chain": W.chain, "valued": W.valued, "answers": res} if len(W.valued) == 2 else None)
             if any(e.kind in ("value_write", "link_write", "prefix_write", "count") for e in p.events):
                 rep.bad("R09.3", ctor, "mutates", "%s changes the map" % ctor, config=cfg)
-    rep.floor("spm / cover paths checked (%s)" % cfg, n, 500)
+    rep.floor("spm / cover paths checked (%s)" % cfg, n, 4000)
 
 
 def finalize(ctx, rep):
